@@ -455,6 +455,9 @@ class LangServer:
                         rename_list += [None for _ in tmp_list]
                 elif type(use_info) is Import:
                     scope = use_info.scope
+                    # IMPORT outside of an interface body has no host to import from
+                    if scope is None:
+                        continue
                     # Add import candidates
                     import_var_list += child_candidates(
                         scope,
